@@ -295,6 +295,161 @@ Proof.
   apply md_stream; [constructor|exact H].
 Qed.
 
+(* ================================================================ the --omd-aligned writer *)
+Lemma md_row_aligned_grow {A} w (f : A -> bytes) (g : A -> nat) l :
+  md_row_aligned w (map (fun a => (md_escape (f a), g a)) l) = grow (map (fun a => (f a, g a - w (md_escape (f a)))) l).
+Proof.
+  unfold md_row_aligned, grow. f_equal. f_equal. rewrite !map_map. apply map_ext. intros a. unfold gcell. cbn [fst snd].
+  f_equal. f_equal. rewrite <- spaces_end, <- app_assoc. reflexivity.
+Qed.
+
+Lemma md_row_aligned_keys w (g : bytes -> nat) ks : forallb (nochar BAR) ks = true ->
+  md_row_aligned w (map (fun k => (k, g k)) ks) = grow (map (fun k => (k, g k - w (md_escape k))) ks).
+Proof.
+  intros H. rewrite <- (md_row_aligned_grow w (fun k => k) g). f_equal. apply map_ext_in. intros k Hk.
+  rewrite forallb_forall in H. now rewrite md_escape_nobar by (now apply H).
+Qed.
+
+(* the header-separator line of either writer *)
+Definition dash_line {A} (g : A -> nat) (l : list A) : bytes :=
+  BAR :: List.concat (map (fun a => SP :: DASHES ++ spaces (g a) ++ [SP; BAR]) l).
+
+Lemma dash_line_facts {A} (g : A -> nat) (l : list A) : l <> [] ->
+  is_nil (dash_line g l) = false /\ sep_md (dash_line g l) = true /\ forall crlf, line_ok crlf (dash_line g l) = true.
+Proof.
+  intros Hne. split; [reflexivity|].
+  set (P := fun c => eqc c "-" || eqc c ":" || eqc c BAR || eqc c SP).
+  set (cell := fun a : A => SP :: DASHES ++ spaces (g a) ++ [SP; BAR]).
+  assert (Hall : forall l : list A, forallb P (List.concat (map cell l)) = true).
+  { clear. induction l as [|x l IH]; [reflexivity|]. cbn [map List.concat]. rewrite forallb_app, IH, andb_true_r.
+    unfold cell. cbn [forallb DASHES B list_ascii_of_string app]. rewrite forallb_app.
+    replace (forallb P (spaces (g x))) with true; [reflexivity|]. symmetry. unfold spaces. now apply forallb_repeat. }
+  assert (Hnolf : forall l : list A, nochar LF (List.concat (map cell l)) = true).
+  { clear. induction l as [|x l IH]; [reflexivity|]. cbn [map List.concat]. rewrite nochar_app, IH, andb_true_r.
+    unfold cell. change (SP :: ?a) with ([SP] ++ a). rewrite !nochar_app, nochar_spaces by reflexivity. reflexivity. }
+  assert (Hlast : forall l : list A, l <> [] -> exists q, List.concat (map cell l) = q ++ [BAR] /\ 1 <= List.length q).
+  { clear. induction l as [|x l IH]; intros Hl; [congruence|]. cbn [map List.concat]. destruct l as [|y l].
+    - exists (SP :: DASHES ++ spaces (g x) ++ [SP]). split; [|cbn; lia].
+      cbn [map List.concat]. rewrite app_nil_r. unfold cell. cbn [app]. rewrite <- !app_assoc. reflexivity.
+    - destruct IH as (q & Hq & Hlen); [discriminate|]. rewrite Hq. exists (cell x ++ q).
+      split; [now rewrite <- app_assoc|rewrite app_length; lia]. }
+  destruct (Hlast l Hne) as (q & Hq & Hlen). unfold dash_line. fold cell.
+  split.
+  - unfold sep_md. rewrite Hq.
+    assert (H3 : Nat.leb 3 (List.length (BAR :: q ++ [BAR])) = true).
+    { apply Nat.leb_le. cbn [List.length]. rewrite app_length. cbn [List.length]. lia. }
+    rewrite H3. cbn [head_is]. change (eqc BAR BAR) with true. unfold last_is.
+    change (BAR :: q ++ [BAR]) with ((BAR :: q) ++ [BAR]). rewrite rev_app_distr. cbn [rev app head_is].
+    change (eqc BAR BAR) with true. cbn [andb]. change ((BAR :: q) ++ [BAR]) with (BAR :: q ++ [BAR]). rewrite <- Hq.
+    cbn [forallb]. fold P. now rewrite Hall.
+  - intros crlf. unfold line_ok. change (BAR :: ?a) with ([BAR] ++ a). rewrite nochar_app, Hnolf. cbn [nochar forallb negb andb].
+    rewrite Hq, app_assoc. rewrite ends_cr_app_ne by discriminate. cbn. now rewrite orb_true_r.
+Qed.
+
+Section Aligned.
+Variables (w : bytes -> nat) (crlf d rg : bool).
+Notation R := (md_read_go false d rg).
+Notation L := (md_batch_lines w).
+
+Lemma md_keys_of_jk r r' : md_rec_ok r = true -> md_rec_ok r' = true -> jk r = jk r' -> keys r = keys r'.
+Proof.
+  intros H H' E. destruct (md_facts r H) as (_ & _ & Hk & _ & Hc & _). destruct (md_facts r' H') as (_ & _ & Hk' & _ & Hc' & _).
+  unfold COMMA in *. apply (join_inj [","]); try assumption; discriminate.
+Qed.
+
+Lemma md_batch_read b rest : batch_inv b -> Forall (fun r => md_rec_ok r = true) b ->
+  R None 0 (L b ++ rest)
+  = match R (Some (keys (hd [] b))) (2 + List.length b) rest with None => None | Some rs => Some (b ++ rs) end.
+Proof.
+  intros [Hne Hj] Hok. destruct b as [|r0 b'] eqn:Eb; [congruence|]. rewrite <- Eb in *.
+  assert (H0 : md_rec_ok r0 = true) by (rewrite Forall_forall in Hok; apply Hok; rewrite Eb; now left).
+  destruct (md_facts r0 H0) as (Hr0 & _ & Hk0 & _ & _ & Hb0 & Hlf0 & Ht0 & _).
+  replace (hd [] b) with r0 by (now rewrite Eb).
+  assert (HL : L b = [md_row_aligned w (map (fun k => (k, md_width w b r0 k)) (keys r0)); dash_line (fun k => md_width w b r0 k - 3) (keys r0)]
+                     ++ map (fun r => md_row_aligned w (map (fun kv => (md_escape (snd kv), md_width w b r0 (fst kv))) r)) b).
+  { rewrite Eb. reflexivity. }
+  rewrite HL. cbn [app]. rewrite md_row_aligned_keys by assumption.
+  rewrite (M_header d rg _ (keys r0)).
+  2:{ rewrite <- (map_id (keys r0)) at 2. apply grow_pair_ok. now rewrite map_id. }
+  destruct (dash_line_facts (fun k => md_width w b r0 k - 3) (keys r0) Hk0) as (Hs1 & Hs2 & _).
+  rewrite M_sep by assumption.
+  rewrite M_batch; [reflexivity|lia|].
+  intros r Hr. rewrite Forall_forall in Hok. pose proof (Hok r Hr) as Hrk.
+  destruct (md_facts r Hrk) as (_ & Hnd & _ & _ & _ & _ & _ & _ & _ & Htv).
+  split; [|split; [|exact Hnd]].
+  - apply md_keys_of_jk; [assumption|assumption|]. rewrite (Hj r Hr). now rewrite Eb.
+  - rewrite (md_row_aligned_grow w (fun kv : bytes * bytes => snd kv) (fun kv => md_width w b r0 (fst kv))).
+    change (values r) with (map snd r). apply grow_pair_ok. exact Htv.
+Qed.
+
+Lemma md_read_batches bs :
+  Forall batch_inv bs -> Forall (Forall (fun r => md_rec_ok r = true)) bs ->
+  R None 0 (sep_lines L bs) = Some (List.concat bs).
+Proof.
+  induction bs as [|b bs IH]; intros Hinv Hok; [reflexivity|].
+  inversion Hinv as [|? ? Hb Hbs]; subst. inversion Hok as [|? ? Hob Hobs]; subst.
+  destruct bs as [|b2 bs].
+  - cbn [sep_lines List.concat]. rewrite <- (app_nil_r (L b)). rewrite md_batch_read by assumption. cbn [md_read_go]. reflexivity.
+  - change (sep_lines L (b :: b2 :: bs)) with (L b ++ [[]] ++ sep_lines L (b2 :: bs)).
+    rewrite md_batch_read by assumption. cbn [app]. rewrite M_blank. rewrite IH by assumption. reflexivity.
+Qed.
+
+Lemma md_batch_lines_ok b : batch_inv b -> Forall (fun r => md_rec_ok r = true) b -> forallb (line_ok crlf) (L b) = true.
+Proof.
+  intros [Hne Hj] Hok. destruct b as [|r0 b'] eqn:Eb; [congruence|]. rewrite <- Eb in *.
+  assert (H0 : md_rec_ok r0 = true) by (rewrite Forall_forall in Hok; apply Hok; rewrite Eb; now left).
+  destruct (md_facts r0 H0) as (Hr0 & _ & Hk0 & _ & _ & Hb0 & Hlf0 & Ht0 & _).
+  assert (HL : L b = [md_row_aligned w (map (fun k => (k, md_width w b r0 k)) (keys r0)); dash_line (fun k => md_width w b r0 k - 3) (keys r0)]
+                     ++ map (fun r => md_row_aligned w (map (fun kv => (md_escape (snd kv), md_width w b r0 (fst kv))) r)) b).
+  { rewrite Eb. reflexivity. }
+  rewrite HL. cbn [app forallb]. rewrite md_row_aligned_keys by assumption.
+  rewrite grow_pair_line_ok by (now rewrite map_id).
+  destruct (dash_line_facts (fun k => md_width w b r0 k - 3) (keys r0) Hk0) as (_ & _ & Hs3). rewrite Hs3. cbn [andb].
+  rewrite forallb_map. rewrite forallb_forall. intros r Hr. rewrite Forall_forall in Hok. pose proof (Hok r Hr) as Hrk.
+  destruct (md_facts r Hrk) as (_ & _ & _ & _ & _ & _ & _ & _ & Hlfv & _).
+  rewrite (md_row_aligned_grow w (fun kv : bytes * bytes => snd kv) (fun kv => md_width w b r0 (fst kv))).
+  apply grow_pair_line_ok. exact Hlfv.
+Qed.
+
+Lemma md_all_lines_ok bs :
+  Forall batch_inv bs -> Forall (Forall (fun r => md_rec_ok r = true)) bs -> forallb (line_ok crlf) (sep_lines L bs) = true.
+Proof.
+  induction bs as [|b bs IH]; intros Hinv Hok; [reflexivity|].
+  inversion Hinv as [|? ? Hb Hbs]; subst. inversion Hok as [|? ? Hob Hobs]; subst.
+  destruct bs as [|b2 bs]; [now apply md_batch_lines_ok|].
+  change (sep_lines L (b :: b2 :: bs)) with (L b ++ [[]] ++ sep_lines L (b2 :: bs)).
+  rewrite forallb_app, md_batch_lines_ok by assumption. cbn [andb app forallb]. rewrite (IH Hbs Hobs), andb_true_r.
+  unfold line_ok. cbn. now destruct crlf.
+Qed.
+End Aligned.
+
+Lemma md_aligned_sep w bs : md_aligned_lines w true bs = sep_lines (md_batch_lines w) bs.
+Proof.
+  destruct bs as [|b t]; [reflexivity|]. cbn [md_aligned_lines app]. revert b. induction t as [|b2 t IH]; intros b.
+  - cbn [md_aligned_lines sep_lines]. now rewrite app_nil_r.
+  - change (sep_lines (md_batch_lines w) (b :: b2 :: t)) with (md_batch_lines w b ++ [[]] ++ sep_lines (md_batch_lines w) (b2 :: t)).
+    cbn [md_aligned_lines]. f_equal. cbn [app]. f_equal. apply IH.
+Qed.
+
+Lemma markdown_roundtrip_aligned w crlf dedupe ragged recs :
+  wf_markdown recs = true ->
+  read_markdown false dedupe ragged (write_markdown w true crlf recs) = Some recs.
+Proof.
+  unfold wf_markdown. intros Hrecs.
+  destruct (pp_all_batches_spec recs) as [Hcat Hinv].
+  assert (Hok : Forall (Forall (fun r => md_rec_ok r = true)) (pp_all_batches recs)).
+  { rewrite Forall_forall. intros b Hb. rewrite Forall_forall. intros r Hr. rewrite forallb_forall in Hrecs. apply Hrecs.
+    rewrite <- Hcat. apply in_concat. exists b. split; assumption. }
+  unfold read_markdown, write_markdown. rewrite md_aligned_sep.
+  rewrite lines_of_unlines by (now apply md_all_lines_ok).
+  rewrite md_read_batches by assumption. now rewrite Hcat.
+Qed.
+
+Lemma markdown_roundtrip w aligned crlf dedupe ragged recs :
+  wf_markdown recs = true ->
+  read_markdown false dedupe ragged (write_markdown w aligned crlf recs) = Some recs.
+Proof. destruct aligned; [apply markdown_roundtrip_aligned|apply markdown_roundtrip_streaming]. Qed.
+
 (* the two former defects (repaired in /repo 80287c7ad, 75f65c604), as regression examples over the models *)
 Example markdown_escaped_bar_regression :
   read_markdown false true false (write_markdown (@List.length ascii) false false [[(B "a", B "x|y"); (B "b", B "2")]])
